@@ -110,7 +110,7 @@ namespace AIToolbox::Factored::MDP {
             }
             lp.row[currentWeight++] = 0.0;
         }
-        lp.row[constBasisId] = 0.0;
+        if (addConstantBasis) lp.row[constBasisId] = 0.0;
 
         // Here signs are opposite to those of C since we need to find (Cw - b)
         // and (b - Cw)
